@@ -87,20 +87,45 @@ def chunks(lst, n):
     return [lst[i:i + k] for i in range(0, len(lst), k)] if lst else []
 
 
-def run_worker(module, cases, shards=NPROC, extra_args=(), timeout=3600):
+def _limits():
+    """resource limits of worker processes: a change to the code under test may make it loop or allocate
+    without bound (e.g. RouteTable.sort_and_pad with inconsistent ids); that must not take the check down"""
+    import resource
+    resource.setrlimit(resource.RLIMIT_AS, (8 << 30, 8 << 30))
+
+
+def _run_part(module, part, extra_args, timeout):
+    p = subprocess.run([VENV_PY, "-m", "harness." + module, *extra_args],
+                       input="".join(json.dumps(c) + "\n" for c in part),
+                       capture_output=True, text=True, env=impl_env(), cwd=VERIF, timeout=timeout,
+                       preexec_fn=_limits)
+    if p.returncode != 0:
+        raise RuntimeError(f"worker {module} failed rc={p.returncode}\n{p.stderr[-2000:]}")
+    out = [json.loads(l) for l in p.stdout.splitlines() if l.strip()]
+    if len(out) != len(part):
+        raise RuntimeError(f"worker {module}: {len(out)} answers for {len(part)} cases\n{p.stderr[-2000:]}")
+    return out
+
+
+def run_worker(module, cases, shards=NPROC, extra_args=(), timeout=900, case_timeout=120):
     """Run `python -m harness.<module>` (fresh interpreters importing floogen from /repo) over the
-    cases, one JSON value per line in, one JSON value per line out, order preserved."""
+    cases, one JSON value per line in, one JSON value per line out, order preserved.  When a shard
+    fails (crash, timeout, memory limit) its cases are re-run one per process; a case that still
+    fails gets the answer {"ok": false, "worker_failed": reason}."""
     parts = chunks(cases, shards)
 
     def one(part):
-        p = subprocess.run([VENV_PY, "-m", "harness." + module, *extra_args],
-                           input="".join(json.dumps(c) + "\n" for c in part),
-                           capture_output=True, text=True, env=impl_env(), cwd=VERIF, timeout=timeout)
-        if p.returncode != 0:
-            raise RuntimeError(f"worker {module} failed rc={p.returncode}\n{p.stderr[-4000:]}")
-        out = [json.loads(l) for l in p.stdout.splitlines() if l.strip()]
-        if len(out) != len(part):
-            raise RuntimeError(f"worker {module}: {len(out)} answers for {len(part)} cases\n{p.stderr[-2000:]}")
+        try:
+            return _run_part(module, part, extra_args, timeout)
+        except (RuntimeError, subprocess.TimeoutExpired) as e:
+            first = str(e)[:300]
+        out = []
+        for c in part:
+            try:
+                out.append(_run_part(module, [c], extra_args, case_timeout)[0])
+            except (RuntimeError, subprocess.TimeoutExpired) as e:
+                out.append({"ok": False, "rc": -1, "files": {}, "stdout": "", "err": "worker failed", "stage": "worker",
+                            "error": f"worker process failed on this case: {str(e)[:300]}", "worker_failed": str(e)[:300]})
         return out
 
     with ThreadPoolExecutor(max_workers=len(parts) or 1) as ex:
